@@ -2758,7 +2758,7 @@ let rec undo_keys live done0 x =
 (** val spki_src_remove_notifies : bool **)
 
 let spki_src_remove_notifies =
-  false
+  true
 
 (** val src_remove_all : world -> unit res **)
 
